@@ -844,3 +844,16 @@ def _il(group, bad):
     ]
 GROUPS["g25"] = _il("", True)
 GROUPS["p13"] = _il("p-", False)
+
+# C13: removal by swap-to-back + truncate, indices consumed ascending (the shape of seeded/C13-d) / descending (correct)
+_RO_OLD = "    lints.remove_indices(remove_indices);\n}"
+GROUPS["g26"] = [
+    E("c13-swap-truncate-ascending", ["C13"], "harper-core/src/lib.rs", _RO_OLD,
+      "    let mut len = lints.len();\n    for i in remove_indices {\n        len -= 1;\n        lints.swap(i, len);\n    }\n    lints.truncate(len);\n}",
+      "R-C13-subset:remove_overlaps:removes-via-remove_indices"),
+]
+GROUPS["p14"] = [
+    E("p-c13-swap-truncate-descending", ["C13"], "harper-core/src/lib.rs", _RO_OLD,
+      "    let mut len = lints.len();\n    for i in remove_indices.into_iter().rev() {\n        len -= 1;\n        lints.swap(i, len);\n    }\n    lints.truncate(len);\n}",
+      None),
+]
